@@ -181,6 +181,9 @@ class Check(CheckBase):
         if self.quick:
             for t in itertools.product(["A", "A L", "A R", "A-L", "A-R", "-L", "-R"], repeat=3):
                 cases.append({"kind": "akai_files", "names": list(t)})
+        # two L/R pairs with one stem need four names (both tiers)
+        for t in itertools.product(["A", "A L", "A R", "A-L", "A-R"], repeat=4):
+            cases.append({"kind": "akai_files", "names": list(t)})
         for t in tuples(AKAI_DIR, k):
             cases.append({"kind": "akai_dirs", "names": t})
         host = [h if h != "/abs" else ABS for h in HOSTILE]
